@@ -15,6 +15,12 @@ Theorem c14_alloc_bounded : forall (b : bytes) (a : N),
   In a (o_allocs (decode_instr b)) -> a <= N.of_nat (length b).
 Proof. exact decode_allocs_bounded. Qed.
 
+(* ... and all requests together do not exceed the length of b either: every request is for the
+   content of a byte string that is really there, and the strings of a datagram do not overlap. *)
+Theorem c14_alloc_sum_bounded : forall b : bytes,
+  list_sum (o_allocs (decode_instr b)) <= N.of_nat (length b).
+Proof. exact decode_alloc_sum_bounded. Qed.
+
 (* For EVERY byte string b the library never has more than MAX_DEPTH + 2 = 34 nested
    visit_seq / visit_map calls open.  Why +2: precheck bounds the nesting of the INPUT by
    MAX_DEPTH; the generic value reader (unknown keys, buffered query arguments) is entered with at
@@ -27,6 +33,7 @@ Theorem c14_depth_bounded : forall b : bytes,
 Proof. exact decode_depth_bounded. Qed.
 
 Print Assumptions c14_alloc_bounded.
+Print Assumptions c14_alloc_sum_bounded.
 Print Assumptions c14_depth_bounded.
 
 (* ---- earlier trees, kept as named variants with their refutation witnesses ---- *)
